@@ -369,12 +369,12 @@ def strat_hyper():
 def subchecks():
     return [
         SubCheck(name="pinn_forward_conventions", mode="given", strategy=strat_pinn, run_case=run_pinn,
-                 counts={"quick": 200, "thorough": 4000}, shards={"quick": 4, "thorough": 16}, clear_every=80,
+                 counts={"quick": 200, "thorough": 20000}, shards={"quick": 4, "thorough": 16}, clear_every=80,
                  min_nontrivial_frac=0.3, doc="create_PINN wrappers vs numpy forward pass + transforms + slices, all calling conventions"),
         SubCheck(name="spinn_tensor_grid", mode="given", strategy=strat_spinn, run_case=run_spinn,
-                 counts={"quick": 100, "thorough": 2000}, shards={"quick": 2, "thorough": 16}, clear_every=60,
+                 counts={"quick": 100, "thorough": 8000}, shards={"quick": 2, "thorough": 16}, clear_every=60,
                  min_nontrivial_frac=0.2, doc="create_SPINN output vs sum_r prod_d f_d(x_d) from the leaves"),
         SubCheck(name="hyperpinn_weight_generation", mode="given", strategy=strat_hyper, run_case=run_hyper,
-                 counts={"quick": 100, "thorough": 2000}, shards={"quick": 2, "thorough": 16}, clear_every=60,
+                 counts={"quick": 100, "thorough": 8000}, shards={"quick": 2, "thorough": 16}, clear_every=60,
                  min_nontrivial_frac=0.2, doc="create_HYPERPINN output vs hyper forward -> split in leaf order -> inner forward"),
     ]
